@@ -50,11 +50,11 @@ class Filter(base.Filter):
             # element is a head element whose end tag has been omitted.
             if type in ("Comment", "SpaceCharacters"):
                 return False
-            elif type == "StartTag":
+            elif type in ("StartTag", "EmptyTag"):
                 # XXX: we do not look at the preceding event, so we never omit
-                # the body element's start tag if it's followed by a script or
-                # a style element.
-                return next["name"] not in ('script', 'style')
+                # the body element's start tag if it's followed by a meta,
+                # link, script, style or template element.
+                return next["name"] not in ('meta', 'link', 'script', 'style', 'template')
             else:
                 return True
         elif tagname == 'colgroup':
